@@ -123,6 +123,13 @@ func (l *Link) WritePacket(r *stack.Route, hdr buffer.Prependable, payload buffe
 }
 
 // Take returns and clears the frames captured so far.
+// Pending is the number of frames written and not yet taken.
+func (l *Link) Pending() int {
+	l.mu.Lock()
+	defer l.mu.Unlock()
+	return len(l.out)
+}
+
 func (l *Link) Take() []Frame {
 	l.mu.Lock()
 	defer l.mu.Unlock()
